@@ -33,9 +33,9 @@ def rel_err(R, e):
                abs(complex(np.ravel(R.z2)[0]) - complex(np.ravel(e[1])[0])))
 
 
-def perturbed(rng, x):
+def perturbed(rng, x, floor=0.1):
     rel = 10.0 ** rng.uniform(-8, -1)
-    s = max(abs(x), 0.1)
+    s = max(abs(x), floor)          # floor = 0: perturbations strictly relative to x (base points near the end of a domain)
     z1 = x + 1j * s * rel * rng.uniform(-1, 1)
     z2 = s * rel * rng.uniform(-1, 1) + 1j * s * rel * rng.uniform(-1, 1)
     return z1, z2
@@ -106,18 +106,25 @@ def run(ctx):
         warnings.simplefilter('ignore')
         for name in names:
             f, (lo, hi) = UNARY[name]
+            tiny_base = False
             for it in range(budget):
                 x = rng.uniform(lo, hi)
                 if name in SMALL and rng.random() < 0.2:
                     # functions vanishing at 0 to first order: tiny arguments, where only a relatively accurate implementation passes
                     x = rng.choice([-1, 1]) * 10.0 ** rng.uniform(-9, -2)
+                elif name in ('log', 'sqrt', 'log2', 'log10') and rng.random() < 0.25:
+                    # the small end of a domain that starts at 0: base points of size 1e-9 .. 1e-3 (a guard added to the modulus or to a
+                    # denominator must stay far below them)
+                    x = 10.0 ** rng.uniform(-9, -3)
+                    tiny_base = True
                 elif name in WIDE and rng.random() < 0.3:
                     # functions regular on the whole real axis (or half axis): arguments of large magnitude too, as they arise
                     # inside compositions
                     x = 10.0 ** rng.uniform(0.5, 5)
                     if WIDE[name] == 'sym' and rng.random() < 0.5:
                         x = -x
-                z1, z2 = perturbed(rng, x)
+                z1, z2 = perturbed(rng, x, 0.0 if tiny_base else 0.1)
+                tiny_base = False
                 ctx.tried((name, z1, z2))
                 asarray = it % 7 == 0
                 try:
@@ -157,7 +164,9 @@ def run(ctx):
         for op in ops:
             for it in range(budget):
                 x, y = rng.uniform(0.3, 3), rng.uniform(0.3, 3)
-                (a1, a2), (b1, b2) = perturbed(rng, x), perturbed(rng, y)
+                if op in ('pow_real', 'pow_int', 'div', 'rdiv') and rng.random() < 0.2:
+                    x = 10.0 ** rng.uniform(-9, -3)           # a small base point (relative perturbations as everywhere)
+                (a1, a2), (b1, b2) = perturbed(rng, x, 0.0 if x < 0.01 else 0.1), perturbed(rng, y)
                 A, B = Bicomplex(a1, a2), Bicomplex(b1, b2)
                 k = rng.choice([-3, -2, -1, 0, 0, 1, 2, 3, 4, 5, 7, 0.0, 2.0, np.int64(0), np.int64(3)])
                 r = rng.uniform(-2.5, 2.5)
